@@ -67,7 +67,15 @@ pub fn run(args: &Args) -> Report {
             match kind {
                 0..=5 => {
                     // reads of several flavours
-                    let n = gen::hostile_outlen(rng, if args.thorough { 100 * 1024 } else { 33 * 1024 });
+                    let mut n = gen::hostile_outlen(rng, if args.thorough { 100 * 1024 } else { 33 * 1024 });
+                    // one read in sixty is long (64 KiB .. 2.5 MiB: size thresholds inside the output
+                    // path, and calls long enough for an asynchronous signal to land inside them)
+                    let long = !guard && !cfg!(miri) && rng.chance(1, 60);
+                    if long {
+                        n = if rng.chance(1, 2) { (1 << 20) + rng.usize_below(3 << 19) } else { (1 << 16) + rng.usize_below(1 << 20) };
+                    }
+                    // the destination at every alignment relative to a 64-byte line
+                    let voff = if guard { 0 } else { *rng.pick(&[0usize, 0, 32, 16, 1, 63, 33, 48]) };
                     let (rd, pos) = &mut readers[ri];
                     let n = if (*pos as u128) + (n as u128) > (u64::MAX as u128) - 1 { ((u64::MAX - 1 - *pos).min(n as u64)) as usize } else { n };
                     let want = node.root_bytes(*pos, n);
@@ -78,12 +86,14 @@ pub fn run(args: &Args) -> Report {
                     }
                     let side = if rng.chance(1, 2) { Side::Right } else { Side::Left };
                     let mut arena = if guard { Some(Arena::new(n, side, rng.u64())) } else { None };
-                    let mut v = vec![0xA5u8; if guard { 0 } else { n }];
+                    let mut vbacking = vec![0xA5u8; if guard { 0 } else { n + voff + 64 }];
+                    let vbase = if guard { 0 } else { (64 - (vbacking.as_ptr() as usize) % 64) % 64 + voff };
+                    let v: &mut [u8] = if guard { &mut vbacking[..] } else { &mut vbacking[vbase..vbase + n] };
                     let which = kind;
                     let r = guarded(|| -> Result<usize, String> {
                         let buf: &mut [u8] = match arena.as_mut() {
                             Some(a) => a.as_mut_slice(),
-                            None => &mut v,
+                            None => &mut *v,
                         };
                         match which {
                             0 | 1 | 2 => {
@@ -112,7 +122,7 @@ pub fn run(args: &Args) -> Report {
                     });
                     let got: &[u8] = match arena.as_ref() {
                         Some(a) => a.as_slice(),
-                        None => &v,
+                        None => &*v,
                     };
                     let opname = ["fill", "fill", "fill", "read", "read_exact", "take.read_to_end"][kind as usize];
                     ops.push(format!("r{}.{}({})@{}", ri, opname, n, *pos));
